@@ -259,6 +259,7 @@ type rng struct {
 	by     string // who unmapped it
 	d      *mmap.Data
 	file   string
+	step   int // global step at which the range was unmapped
 }
 
 // Locate maps an address inside a (live or poisoned) file mapping to the
@@ -323,7 +324,7 @@ func Munmap(d *mmap.Data) error {
 		mu.Unlock()
 		return mmap.Munmap(d)
 	}
-	dead = append(dead, rng{lo: lo, hi: lo + uintptr(len(d.Data)), by: sched.CallerSite(1), d: &mmap.Data{Data: d.Data}, file: file})
+	dead = append(dead, rng{lo: lo, hi: lo + uintptr(len(d.Data)), by: sched.CallerSite(1), d: &mmap.Data{Data: d.Data}, file: file, step: sched.StepNow()})
 	mu.Unlock()
 	Unmaps++
 	return nil
@@ -333,7 +334,11 @@ func Munmap(d *mmap.Data) error {
 func CheckAddr(addr uintptr, kind string) {
 	for _, r := range dead {
 		if addr >= r.lo && addr < r.hi {
-			sched.Violate("use-after-unmap: " + kind + " in " + sched.CallerSite(2) + "; mapping closed by " + r.by)
+			when := "; the call was in flight when the mapping was closed"
+			if t := sched.Current(); t != nil && t.OpStart >= r.step {
+				when = "; the call began after the mapping was closed"
+			}
+			sched.Violate("use-after-unmap: " + kind + " in " + sched.CallerSite(2) + "; mapping closed by " + r.by + when)
 			return
 		}
 	}
